@@ -289,3 +289,70 @@ Example c11_tokens_nonvacuous :
                       (Some [(TStr [97], 12); (TStr [98], 7)]) (Some (10 # 1)) None false
   = Ok [(12, 50, 81); (7, -1, -1)].
 Proof. reflexivity. Qed.
+
+(* ============================== source ties ========================================== *)
+(* The Python text of read_ctm / write_ctm (their open-file branches), token_to_transcript [and transcript_to_token, see
+   below] is translated on every run (harness/py2coq -> PV.Gen.C11Src) and interpreted by PV.MiniPy.Interp with the
+   external calls of PV.C11.SrcRun.ext11; the theorems below say that this interpreted source computes exactly what
+   C11.Model computes, for all inputs (notes/C11_tie_report.md; encodings and what ext11 assumes: C11/SrcRun.v). *)
+From PV Require MiniPy.Syntax MiniPy.Interp C11.SrcRun C11.Tie.
+
+(* read_ctm on an open file = Model.read_ctm_file: every file (field level), wc2utt None or any dict; the result is the
+   encoding of the model's list, ValueError / KeyError are raised exactly when the model raises them *)
+Theorem c11_source_read_ctm_is_model : forall ls wc2utt,
+  match read_ctm_file ls wc2utt with
+  | Ok out => exists st, SrcRun.run_read_ctm (map SrcRun.enc_seg_line ls) (SrcRun.enc_wc2utt wc2utt)
+                         = Interp.Ok (Syntax.VList (map SrcRun.enc_utt out)) st
+  | Raise e => exists st, SrcRun.run_read_ctm (map SrcRun.enc_seg_line ls) (SrcRun.enc_wc2utt wc2utt)
+                          = Interp.Exc (SrcRun.exn_name e) st
+  end.
+Proof. exact Tie.read_ctm_tie. Qed.
+Print Assumptions c11_source_read_ctm_is_model.
+
+(* write_ctm on an open file = Model.write_ctm_file: every list of transcripts (tokens with or without times), utt2wc a
+   dict or a channel string; the lines left in the file variable are the model's segments in the model's order *)
+Theorem c11_source_write_ctm_is_model : forall ts m,
+  match write_ctm_file ts m with
+  | Ok segs => exists st, SrcRun.run_write_ctm (Syntax.VList (map SrcRun.enc_wutt ts)) (SrcRun.enc_utt2wc m)
+                          = Interp.Ok Syntax.VNone st
+                          /\ Interp.lookup Tie.file_var (Interp.vars st)
+                             = Some (Syntax.VList (map SrcRun.enc_seg_line segs))
+  | Raise e => exists st, SrcRun.run_write_ctm (Syntax.VList (map SrcRun.enc_wutt ts)) (SrcRun.enc_utt2wc m)
+                          = Interp.Exc (SrcRun.exn_name e) st
+  end.
+Proof. exact Tie.write_ctm_tie. Qed.
+Print Assumptions c11_source_write_ctm_is_model.
+
+(* composed with c11_ctm_roundtrip_up_to_order - a statement purely about the interpreted source: what the interpreted
+   write_ctm writes, the interpreted read_ctm reads back as the expected transcripts (same utterances and tokens, filed by
+   (wfn, chan) / start time), for every valid collection of transcripts and every waveform/channel mapping *)
+Theorem c11_source_ctm_roundtrip : forall m wc2utt key ts,
+  ctm_ok m wc2utt key ts ->
+  exists stw lines,
+    SrcRun.run_write_ctm (Syntax.VList (map SrcRun.enc_wutt (with_times ts))) (SrcRun.enc_utt2wc m)
+      = Interp.Ok Syntax.VNone stw
+    /\ Interp.lookup Tie.file_var (Interp.vars stw) = Some (Syntax.VList lines)
+    /\ exists str, SrcRun.run_read_ctm lines (SrcRun.enc_wc2utt wc2utt)
+                   = Interp.Ok (Syntax.VList (map SrcRun.enc_utt (expected key ts))) str.
+Proof. exact Tie.source_ctm_roundtrip. Qed.
+Print Assumptions c11_source_ctm_roundtrip.
+
+(* token_to_transcript = Model.token_to_transcript, item by item, for a long tensor of shape (R, 3) [cols = 3], (R, 1)
+   [cols = 1: the model's rows carry -1, -1] or (R,) [cols = 0], id2token None or any dict, frame_shift_ms None or a
+   rational that is not 0 (C11.Model: "frame_shift_ms falsy (None or 0) is None here") *)
+Theorem c11_source_to_transcript_is_model : forall cols rows i2t fs,
+  TieTokBack.fs_ok fs -> (cols = 0 \/ cols = 1 \/ cols = 3)%nat ->
+  exists ws st, SrcRun.run_to_transcript (SrcRun.enc_ref cols rows) (SrcRun.enc_i2t i2t) (SrcRun.enc_fs fs)
+                = Interp.Ok (Syntax.VList ws) st
+                /\ Forall2 TieTokBack.item_rel (token_to_transcript (map (TieTokBack.norm_row cols) rows) i2t fs) ws.
+Proof. exact Tie.to_transcript_tie. Qed.
+Print Assumptions c11_source_to_transcript_is_model.
+
+(* the hypotheses are met and the conclusion is not empty: the two utterances of c11_ctm_nonvacuous, written and read
+   back by the interpreted source *)
+Example c11_source_nonvacuous :
+  SrcRun.src_write_ctm_file (with_times [([98], [([120], 5, 7); ([121], 5, 6)]); ([97], [([122], 0, 0)])]) (inr [65])
+  = Some (Ok [([97], [65], 0, 0, [122]); ([98], [65], 5, 1, [121]); ([98], [65], 5, 2, [120])])
+  /\ SrcRun.src_read_ctm_file [([97], [65], 0, 0, [122]); ([98], [65], 5, 1, [121]); ([98], [65], 5, 2, [120])] None
+     = Some (Ok [([97], [([122], 0, 0)]); ([98], [([121], 5, 6); ([120], 5, 7)])]).
+Proof. split; vm_compute; reflexivity. Qed.
